@@ -2005,9 +2005,20 @@ hdf_cdf_clobber(NC *handle)
         goto done;
     }
 
-    /* Close open VData pointers */
-    if (FAIL == hdf_close(handle)) {
-        HGOTO_FAIL(FAIL);
+    /* Close open VData pointers.  The metadata closed here is deleted below
+       and written again behind everything the file holds: the sizes of its
+       unlimited dimensions are not updated in place any more (that would
+       change stored bytes before the new descriptors are flushed, for
+       nothing) */
+    {
+        unsigned ndirty = handle->flags & NC_NDIRTY;
+
+        handle->flags &= ~NC_NDIRTY;
+        status = hdf_close(handle);
+        handle->flags |= ndirty;
+        if (FAIL == status) {
+            HGOTO_FAIL(FAIL);
+        }
     }
 
     /* loop through and Clobber all top level VGroups */
